@@ -12,6 +12,10 @@ TOUCHED = {'template_input': ('RUN2D', 'RUN1D'),
            'window_score': ('PHOTO_CALIB',),
            'window_read': ('PHOTO_CALIB',)}
 
+KNOBS = ['OMP_NUM_THREADS', 'OPENBLAS_NUM_THREADS', 'MKL_NUM_THREADS', 'NUMEXPR_NUM_THREADS', 'MPLBACKEND',
+         'PYDL_DEBUG', 'IDLUTILS_DIR', 'IDLSPEC2D_DIR', 'PHOTO_DATA', 'PHOTO_SKY', 'PHOTO_SWEEP',
+         'BOSS_PHOTOOBJ', 'SPECTRO_DATA', 'RUN2D_SAVE', 'PHOTO_CALIB_SAVE', 'LC_NUMERIC']
+
 RUN_VALUES = ['v9_9_9', 'v5_7_0', '26', '103']     # numeric ones select SPECTRO_REDUX
 
 
@@ -43,6 +47,11 @@ def gen_world(r, tier):
     for _ in range(nb):
         by['BY_' + _name(r, r.randint(3, 10))] = ''.join(
             r.choice(string.ascii_letters + string.digits + '/:= ._-') for _ in range(r.randint(0, 24)))
+    # well-known knobs a stage might be tempted to pin "temporarily": present or absent at random
+    for k in KNOBS:
+        u = r.random()
+        if u < 0.45:
+            by[k] = r.choice(['1', '4', '8', 'Agg', '/some/dir', ''])
     w['bystanders'] = by
     run2d = r.choice(RUN_VALUES)
     run1d = run2d if r.random() < 0.7 else r.choice(RUN_VALUES)
@@ -246,7 +255,7 @@ def gen_invocation(r, w, tier, j, stratum=0):
         entry = 'window_score' if u < 0.88 else 'window_read'
         inv = {'entry': entry, 'rescore': (r.random() < 0.5) if entry == 'window_score' else True,
                'score': 'real' if r.random() < 0.45 else 'stub'}
-        env = {'PHOTO_CALIB': _touched_state(r, p_unset=0.15)}
+        env = {'PHOTO_CALIB': _touched_state(r, p_unset=0.15 if entry == 'window_score' else 0.4)}
         env['PHOTO_RESOLVE'] = _env_state(r, (0.8, 0.1, 0.1))
         env['PHOTO_REDUX'] = _env_state(r, (0.8, 0.1, 0.1))
         inv['env'] = env
